@@ -1,21 +1,30 @@
 import FormulaicVerif.Engines.Json
 import FormulaicVerif.Model.Reuse
 import FormulaicVerif.Gen.KindTable
-/-! Engine `c09`: runs `Model.Reuse.replay` (reuse of a recorded spec on a follow-up frame).
+/-! Engine `c09`: runs `Model.Reuse.replayWith` / `replayDerivedWith` (reuse of a recorded spec on a
+follow-up frame) and `replayState` (what the application leaves in the spec).
 
-request  {"specs": [spec…], "frame": {"nrows": n, "cols": [{"name", "dtype", "cells", "categories"?}…]}, "order": [expr…]}
-  spec   {"terms": [[{"expr","via","column","declared","value"}…]…],
+request  {"apps": [application…]}   (a bare application is accepted as well)
+application
+         {"specs": [spec…], "frame": {"nrows": n, "cols": [{"name", "dtype", "cells", "categories"?}…]},
+          "order": [expr…], "route": "pandas" | "narwhals" | "arrow",
+          "overrides"?: {"na_action"?, "output"?, "efr"?},
+          "derive"?: [{"op":"part","i"} | {"op":"subset","picks":[term index…]} |
+                      {"op":"subset_all","picks":[[term index…]…]} | {"op":"pickle"}…],
+          "fit_specs"?: [spec…], "derived"?: [spec…], "replay_on"?: "model" | "live"}  (see `handleOne`)
+  spec   {"terms": [[{"expr","via","column","declared","value","contr"?,"levels"?}…]…],
           "structure": [{"scoped": [{"factors": [{"expr","reduced"}…], "scale": "p/q"}…], "columns": […]}…],
           "encoder_state": [{"expr","kind","levels": null | [val…]}…], "transform_state": [[k, v]…],
           "na_action", "efr", "output"}
   val    {"n": "p/q"} | {"s": "text"} | {"b": true|false} | null
-The kind of a frame column is looked up in the GENERATED table `Gen.kindTable` (pandas
-materializer) by its dtype label.
-optional {"derive": [{"op":"part","i"} | {"op":"subset","picks":[term index…]} | {"op":"pickle"}…],
-          "fit_specs": [spec…], "derived": [spec…], "replay_on": "model" | "live"}  (see `handle`)
-answer   {"error": <exception class>} | {"results": [{"names","values","warn","branches","generated"}…]}
+  contr  see `contrOf`
+The kind of a frame column is looked up in the GENERATED table `Gen.kindTable` by its dtype label, in the
+column of the input route.
+answer   {"apps": [answer…]};  answer = {"error": <exception class>} | {"results": [{"names","values","warn","branches","generated"}…]}
          with "derive": also "derived_diff": [field…] (empty = the live derived spec is the model's), or {"derive_error"}
-         always with "pooled": the pooled factor expressions and "kinds": the kind per frame column. -/
+         always with "pooled": the pooled factor expressions, "kinds": the kind per frame column,
+         "spec_after": the encoder_state per spec after a successful application (null otherwise),
+         "poly_checks": the model's unnormalised polynomial coding + norms2 per table of the parameter. -/
 namespace FormulaicVerif.Engines.C09
 open Lean FormulaicVerif.Model.Reuse FormulaicVerif.Engines
 
@@ -59,10 +68,35 @@ def levelsOf (j : Json) : Option (List Val) :=
   | .arr a => some (a.toList.filterMap valOf)
   | _ => none
 
+def ratsOf (j : Json) : List Rat := (asArr j).map (fun x => ratOfString (asStr x))
+
+def optStrs (j : Json) : Option (List String) :=
+  match j with
+  | .arr a => some (a.toList.map asStr)
+  | _ => none
+
+/-- the `contrasts` argument of a `C(…)` call:
+null | {"kind":"treatment","sas","base": val|null} | {"kind":"sum"} | {"kind":"helmert","reverse","scale"}
+| {"kind":"diff","backward"} | {"kind":"poly","scores": null|[q…],"tables":[{"n","matrix":[[q…]…]}…]}
+| {"kind":"custom","dict","ctor","vectors":[[q…]…],"keys":[s…],"names": null|[s…]} -/
+def contrOf (j : Json) : Contr :=
+  match jstr j "kind" with
+  | "treatment" => .treatment (jbool j "sas") (valOf (jval j "base"))
+  | "sum" => .sum
+  | "helmert" => .helmert (jbool j "reverse") (jbool j "scale")
+  | "diff" => .diff (jbool j "backward")
+  | "poly" =>
+    .poly (match jval j "scores" with | .arr a => some (ratsOf (.arr a)) | _ => none)
+          ((jarr j "tables").map (fun t => (jnat t "n", (jarr t "matrix").map ratsOf)))
+  | "custom" =>
+    .custom { isDict := jbool j "dict", vectors := (jarr j "vectors").map ratsOf, keys := strs j "keys",
+              names := optStrs (jval j "names"), viaCtor := jbool j "ctor" }
+  | _ => .default
+
 def factorOf (j : Json) : FactorDecl :=
   { expr := jstr j "expr"
     via := match jstr j "via" with
-      | "cwrap" => .cwrap
+      | "cwrap" => .cwrap (contrOf (jval j "contr")) (levelsOf (jval j "levels"))
       | "literal" => .literal (ratOfString (jstr j "value"))
       | _ => .lookup
     column := jstr j "column"
@@ -76,7 +110,7 @@ def naOf : String → NaAction
   | "raise" => .raise | "ignore" => .ignore | _ => .drop
 
 def outputOf : String → Output
-  | "numpy" => .numpy | "sparse" => .sparse | _ => .pandas
+  | "numpy" => .numpy | "sparse" => .sparse | "narwhals" => .narwhals | _ => .pandas
 
 def specOf (j : Json) : Spec :=
   { terms := (jarr j "terms").map (fun t => (asArr t).map factorOf)
@@ -90,19 +124,21 @@ def specOf (j : Json) : Spec :=
     ensureFullRank := jbool j "efr"
     output := outputOf (jstr j "output") }
 
-/-- `_is_categorical` of the pandas materializer on a column of this dtype, from the generated table -/
-def dtypeKind (label : String) : Option Kind :=
+/-- `_is_categorical` on a column of this dtype, from the generated table: of the pandas materializer
+(`route = "pandas"`), of the narwhals materializer on a pandas frame (`"narwhals"`) or on the pyarrow
+table built from it (`"arrow"`) -/
+def dtypeKind (route label : String) : Option Kind :=
   match FormulaicVerif.Gen.kindTable.find? (fun r => r.dtype == label) with
   | some r =>
-    match r.pandasKind with
+    match (if route == "narwhals" then r.narwhalsKind else if route == "arrow" then r.arrowKind else r.pandasKind) with
     | .categorical => some .categorical
     | .numerical => some .numerical
     | .error => none
   | none => none
 
-def frameOf (j : Json) : Except String Frame := do
+def frameOf (route : String) (j : Json) : Except String Frame := do
   let cols ← (jarr j "cols").mapM (fun c =>
-    match dtypeKind (jstr c "dtype") with
+    match dtypeKind route (jstr c "dtype") with
     | none => .error ("dtype not in Gen.kindTable: " ++ jstr c "dtype")
     | some k => .ok (jstr c "name",
         ({ kind := k, cells := (jarr c "cells").map valOf, cats := levelsOf (jval c "categories") } : NewCol)))
@@ -115,6 +151,7 @@ def errName : Err → String
   | .runtimeError => "RuntimeError"
   | .keyError => "KeyError"
   | .typeError => "TypeError"
+  | .indexError => "IndexError"
 
 def cellJ : Option Rat → Json
   | none => Json.null
@@ -135,7 +172,13 @@ def stepOf (j : Json) : Step :=
   match jstr j "op" with
   | "part" => .part (jnat j "i")
   | "subset" => .subset ((jarr j "picks").map asNat)
+  | "subset_all" => .subsetAll ((jarr j "picks").map (fun ps => (asArr ps).map asNat))
   | _ => .roundTrip
+
+def overridesOf (j : Json) : Overrides :=
+  { naAction := match jval j "na_action" with | .str v => some (naOf v) | _ => none
+    output := match jval j "output" with | .str v => some (outputOf v) | _ => none
+    ensureFullRank := match jval j "efr" with | .bool b => some b | _ => none }
 
 /-- which recorded field of a derived spec differs between the model's derivation and the live object -/
 def specDiff (m l : Spec) : List String :=
@@ -152,25 +195,63 @@ def specsDiff (ms ls : List Spec) : List String :=
   if ms.length ≠ ls.length then ["number of specs"]
   else (ms.zip ls).flatMap (fun p => specDiff p.1 p.2)
 
-def answer (specs : List Spec) (fr : Frame) (run : Except Err (List Result)) (extra : List (String × Json)) : Json :=
+def valJ : Val → Json
+  | .num q => Json.mkObj [("n", Json.str (ratStr q))]
+  | .str t => Json.mkObj [("s", Json.str t)]
+  | .bool b => Json.mkObj [("b", Json.bool b)]
+
+/-- the `encoder_state` of a spec in the request's own format -/
+def encStateJ (s : Spec) : Json :=
+  jlist (s.encoderState.map (fun kr => Json.mkObj [
+    ("expr", Json.str kr.1), ("kind", Json.str (kindStr kr.2.kind)),
+    ("levels", match kr.2.levels with | none => Json.null | some ls => jlist (ls.map valJ))]))
+
+def ratsJ (l : List Rat) : Json := jlist (l.map (fun q => Json.str (ratStr q)))
+
+/-- for every `contr.poly` factor and every level count its parameter table covers: the model's own
+UNNORMALISED coding matrix and `norms2`, so that the harness can check the contract of the parameter
+(`table[i][j] · sqrt(norms2[j]) = raw[i][j]`) -/
+def polyChecks (specs : List Spec) : Json :=
+  jlist ((pooledFactors specs).flatMap (fun d =>
+    match d.via with
+    | .cwrap (.poly scores tables) _ =>
+      tables.filterMap (fun t =>
+        let labels := List.replicate t.1 (FormulaicVerif.Model.Contrasts.Label.int 0)
+        match FormulaicVerif.Model.Contrasts.rawCodingMatrix (.poly scores) labels true,
+              FormulaicVerif.Model.Contrasts.codingNorms2 (.poly scores) labels true with
+        | .ok raw, .ok n2 => some (Json.mkObj [("expr", Json.str d.expr), ("n", Json.num t.1),
+            ("raw", jlist (raw.map ratsJ)), ("norms2", ratsJ n2)])
+        | _, _ => none)
+    | _ => []))
+
+def answer (specs : List Spec) (fr : Frame) (order : List String) (run : Except Err (List Result))
+    (extra : List (String × Json)) : Json :=
+  let after : Json :=
+    match replayState specs fr order with
+    | .ok (_, ss) => jlist (ss.map encStateJ)
+    | .error _ => Json.null
   let extra := extra ++ [
     ("pooled", jstrs ((pooledFactors specs).map (·.expr))),
-    ("kinds", jlist (fr.cols.map (fun c => jstrs [c.1, kindStr c.2.kind])))]
+    ("kinds", jlist (fr.cols.map (fun c => jstrs [c.1, kindStr c.2.kind]))),
+    ("spec_after", after),
+    ("poly_checks", polyChecks specs)]
   match run with
   | .error e => Json.mkObj (("error", Json.str (errName e)) :: extra)
   | .ok rs => Json.mkObj (("results", jlist (rs.map resultJ)) :: extra)
 
-/-- without `"derive"`: `replay` on `"specs"`. With `"derive"` (a history between fit and reuse):
-the model derives the spec(s) itself from `"fit_specs"` (`Model.Reuse.derive`), reports how they
-differ from the live derived spec(s) `"derived"`, and — `"replay_on": "model"` — replays ITS OWN
-derived specs (`replayDerived`); `"replay_on": "live"` (the derived spec was hand-edited afterwards)
-replays `"specs"`. -/
-def handle (j : Json) : Json :=
-  match frameOf (jval j "frame") with
+/-- one application of recorded spec(s) to a follow-up frame.
+without `"derive"`: `replayWith overrides` on `"specs"`. With `"derive"` (a history between fit and reuse,
+possibly empty): the model derives the spec(s) itself from `"fit_specs"` (`Model.Reuse.derive`), reports
+how they differ from the live derived spec(s) `"derived"`, and — `"replay_on": "model"` — replays ITS OWN
+derived specs (`replayDerivedWith`); `"replay_on": "live"` (the derived spec was hand-edited afterwards)
+replays `"specs"`. `"route"` selects the column of the generated kind table. -/
+def handleOne (j : Json) : Json :=
+  match frameOf (jstr j "route") (jval j "frame") with
   | .error e => jerr ("bad-request: " ++ e)
   | .ok fr =>
     let specs := (jarr j "specs").map specOf
     let order := strs j "order"
+    let ov := overridesOf (jval j "overrides")
     match j.getObjVal? "derive" with
     | .ok (.arr steps) =>
       let fit := (jarr j "fit_specs").map specOf
@@ -180,8 +261,15 @@ def handle (j : Json) : Json :=
       | .error e => Json.mkObj [("derive_error", Json.str (errName e))]
       | .ok ds =>
         let extra := [("derived_diff", jstrs (specsDiff ds live))]
-        if jstr j "replay_on" == "live" then answer specs fr (replay specs fr order) extra
-        else answer ds fr (replayDerived fit steps fr order) extra
-    | _ => answer specs fr (replay specs fr order) []
+        if jstr j "replay_on" == "live" then
+          answer (specs.map ov.apply) fr order (replayWith ov specs fr order) extra
+        else answer (ds.map ov.apply) fr order (replayDerivedWith ov fit steps fr order) extra
+    | _ => answer (specs.map ov.apply) fr order (replayWith ov specs fr order) []
+
+/-- `{"apps": [application…]}` → `{"apps": [answer…]}`; a bare application is answered directly -/
+def handle (j : Json) : Json :=
+  match j.getObjVal? "apps" with
+  | .ok (.arr apps) => Json.mkObj [("apps", jlist (apps.toList.map handleOne))]
+  | _ => handleOne j
 
 end FormulaicVerif.Engines.C09
